@@ -1235,7 +1235,12 @@ func (c *Conn) handleDisembargo(ctx context.Context, d rpccp.Disembargo) error {
 			c.mu.Unlock()
 			return errorf("incoming disembargo: unknown answer ID %d", tgt.promisedAnswer)
 		}
-		if ans.flags&returnSent == 0 {
+		// The results are marked ready before the Return is written and
+		// returnSent only once the write has come back: the remote vat can
+		// react to the Return before that, so returnSent is too late a
+		// condition here.  (A Finish in between means the results message
+		// is about to be released.)
+		if ans.flags&resultsReady == 0 || ans.flags&(returnSent|finishReceived) == finishReceived {
 			c.mu.Unlock()
 			return errorf("incoming disembargo: answer ID %d has not sent return", tgt.promisedAnswer)
 		}
